@@ -176,7 +176,10 @@ def replay(args: list[Any], c: dict[str, Any]) -> dict[str, Any]:
             "model_says": run_model(c, tr, lab, star)}
 
 
-if CFG:
-    run_model(CFG, [0, 1, 0, 1, 0][:CFG["n"]], [0, 1, 1, 0, 1][:CFG["n"]], [0, 0, 0, 0, 1][:CFG["n"]])
-else:
-    run_model({"n": 4, "T": 2, "batch": 2}, [0, 1, 0, 1], [0, 1, 1, 0], [0, 0, 0, 0])
+try:  # warm-up
+    if CFG:
+        run_model(CFG, [0, 1, 0, 1, 0][:CFG["n"]], [0, 1, 1, 0, 1][:CFG["n"]], [0, 0, 0, 0, 1][:CFG["n"]])
+    else:
+        run_model({"n": 4, "T": 2, "batch": 2}, [0, 1, 0, 1], [0, 1, 1, 0], [0, 0, 0, 0])
+except Exception:  # noqa  (a failing warm-up is reported by the conditions themselves)
+    pass
